@@ -1870,7 +1870,7 @@ func (t *bodyTr) forStmt(x *ast.ForStmt, sc bscope, ctx bctx, ind string, rest f
 	fmt.Fprintf(&d, "  if !%s then .brk %s else\n", c.Lean, tuple(vars))
 	body := t.seq(x.Body.List, sc.push().push(), lctx, "  ")
 	d.WriteString(body)
-	post := "id"
+	post := "_root_.id"
 	var pd strings.Builder
 	if x.Post != nil {
 		pctx := bctx{
@@ -2043,7 +2043,7 @@ func GenBody(spec *FnSpec) string {
 		t.recvName = fd.Recv.List[0].Names[0].Name
 	}
 	// names the rendering itself uses: a Go local of that name would capture them
-	for _, w := range strings.Fields("none some decide not id Go Gen Chan Cb Netconf List Int Nat Bool UInt8 Bytes Option " +
+	for _, w := range strings.Fields("none some decide not Go Gen Chan Cb Netconf List Int Nat Bool UInt8 Bytes Option " +
 		"isInfix hasPrefix trimPrefix trimSuffix trimSpace splitLF joinLF loopRet") {
 		t.reserved[w] = true
 	}
